@@ -17,7 +17,10 @@ Import ListNotations.
 Open Scope Z_scope.
 
 (* ------------------------------------------------------------------ case format *)
-Record sentry := mkS { s_labels : labels; s_key : bytes; s_hash : Z }.
+Record sentry := mkS { s_labels : labels; s_hash : Z }.
+
+(* run-length encoded byte strings in case files: [rp c n] is n copies of byte c *)
+Definition rp (c n : Z) : list N := repeat (Z.to_N c) (Z.to_nat n).
 
 (* observed result of one Select: series indexes in the order returned, or an error *)
 Inductive ores := OOk (l : list Z) | OErrDisabled | OErrOther.
@@ -118,10 +121,9 @@ Definition holds_hash (h : Z) (obs : list Z) : bool :=
   && existsb (fun o => negb (o =? -1)) obs.
 
 (* ------------------------------------------------------------------ CSel: model side *)
-Definition tab_of (ss : list sentry) : table := map (fun s => (s_key s, s_hash s)) ss.
-
-Definition keys_ok (ss : list sentry) : bool :=
-  forallb (fun s => bytes_eqb (stable_bytes (s_labels s)) (s_key s)) ss.
+(* the oracle point of a series is keyed by the model's serialisation of its label set (the
+   harness hashes its own serialisation; CHash cases check that the two coincide) *)
+Definition tab_of (ss : list sentry) : table := map (fun s => (stable_bytes (s_labels s), s_hash s)) ss.
 
 Definition labels_of (ss : list sentry) (k : Z) : labels :=
   match nth_error ss (Z.to_nat k) with Some s => s_labels s | None => [] end.
@@ -163,26 +165,28 @@ Fixpoint merge_results (rs : list (sres (list Z))) : ores :=
       end
   end.
 
-Definition model_select (t : table) (ss : list sentry) (v : view) (u : list Z) (hs : hints) : ores :=
+(* one Select over already built model sources [(source, postings)] *)
+Definition model_select (t : table) (ss : list sentry) (srcs : list (source * list Z)) (hs : hints) : ores :=
   merge_results
-    (map (fun s =>
-            match select (xsum t) (model_source t (v_sharding v) ss s) (fun _ => true) (model_postings s u) hs with
+    (map (fun sp =>
+            match select (xsum t) (fst sp) (fun _ => true) (snd sp) hs with
             | SOk l => SOk (map (fun rl => index_of ss (snd rl) 0) l)
             | SErrDisabled => SErrDisabled
             | SErrNotFound r => SErrNotFound r
             | SPanic => SPanic
-            end) (v_srcs v)).
+            end) srcs).
 
 Definition canon (o : ores) : ores := match o with OOk l => OOk (sort_u l) | e => e end.
 
 Definition agree_view (t : table) (ss : list sentry) (v : view) : bool :=
   match v_unsharded v with
   | OOk u =>
-      ores_eqb (model_select t ss v u (no_shard)) (canon (v_unsharded v))
+      let srcs := map (fun s => (model_source t (v_sharding v) ss s, model_postings s u)) (v_srcs v) in
+      ores_eqb (model_select t ss srcs no_shard) (canon (v_unsharded v))
       && (Nat.eqb (length (v_shards v)) (Z.to_nat (v_n v)))
-      && forallb (fun io => ores_eqb (model_select t ss v u (mkHints (fst io) (v_n v))) (canon (snd io)))
+      && forallb (fun io => ores_eqb (model_select t ss srcs (mkHints (fst io) (v_n v))) (canon (snd io)))
                  (combine (positions (v_shards v) 0) (v_shards v))
-      && forallb (fun io => ores_eqb (model_select t ss v u (mkHints (fst io) (v_n v))) (canon (snd io)))
+      && forallb (fun io => ores_eqb (model_select t ss srcs (mkHints (fst io) (v_n v))) (canon (snd io)))
                  (v_oob v)
   | _ => false   (* the unsharded query never fails in the harness *)
   end.
@@ -190,7 +194,7 @@ Definition agree_view (t : table) (ss : list sentry) (v : view) : bool :=
 Definition agree (c : case) : bool :=
   match c with
   | CHash _ ls key h obs sl => agree_hash ls key h obs sl
-  | CSel _ ss vs => keys_ok ss && forallb (agree_view (tab_of ss) ss) vs
+  | CSel _ ss vs => let t := tab_of ss in forallb (agree_view t ss) vs
   end.
 
 (* ------------------------------------------------------------------ CSel: the property *)
